@@ -325,6 +325,63 @@ def canon_context_value(c):
     marker = lines[-1] if len(lines) > 1 else ''
     return [0, norm(lines[:-1] if len(lines) > 1 else lines), len(marker) - len(marker.lstrip(' '))]
 
+def _mk_scanner(sc, cls):
+    text, fn, ln, pos = S(sc[0]), (None if sc[1] == [] else S(sc[1][0])), sc[2], sc[3]
+    p = cls(text, filename=fn)
+    p.lineno = ln
+    p.pos = pos
+    return p
+
+def impl_construct(arg):
+    """call the real constructor with the given parameters; observe the object through its public
+    interface: str, get_context, format_error, lineno, get_filename"""
+    from pybtex.scanner import Scanner, PybtexSyntaxError, PrematureEOF, TokenRequired
+    from pybtex.errors import format_error
+    tag = arg[0]
+    if tag == 0:
+        fn = arg[2]
+        e = plain_classes()[len(arg[1]) % len(plain_classes())](S(arg[1]), None if fn == [] else (S(fn[1]) if fn[0] == 0 else 5))
+    elif tag == 1:
+        et = S(arg[1])
+        p = _mk_scanner(arg[3], Scanner)
+        if et == 'syntax error':
+            cls = PybtexSyntaxError
+        elif et == 'undefined string':
+            from pybtex.database.input.bibtex import UndefinedMacro as cls
+        else:
+            cls = _CUSTOM.get(et) or _CUSTOM.setdefault(et, type('CustomSyntaxError', (PybtexSyntaxError,), {'error_type': et}))
+        e = cls(S(arg[2]), p)
+    elif tag == 2:
+        e = PrematureEOF(_mk_scanner(arg[1], Scanner))
+    elif tag == 3:
+        e = TokenRequired(S(arg[1]), _mk_scanner(arg[2], Scanner))
+    elif tag == 4:
+        from pybtex.database.input.bibtex import LowLevelParser
+        p = _mk_scanner(arg[2], LowLevelParser)
+        p.command_start = unopt(arg[3])
+        e = TokenRequired(S(arg[1]), p)
+    else:
+        from pybtex.auxfile import AuxDataError, AuxDataContext
+        c = AuxDataContext(None if arg[2][0] == [] else S(arg[2][0][0]))
+        c.lineno = unopt(arg[2][1])
+        c.line = None if arg[2][2] == [] else S(arg[2][2][0])
+        e = AuxDataError(S(arg[1]), c)
+        c.lineno, c.line = 77, 'the parser went on'      # the error keeps what it was given (F22)
+    try:
+        st = str(e)
+        st = [0, norm(st)] if isinstance(st, str) else [2]
+    except Exception:
+        st = [2]
+    ln = getattr(e, 'lineno', None)
+    if tag == 5:
+        ln = None        # AuxDataError has no public line attribute; the line is part of str(e)
+    try:
+        f = e.get_filename()
+        f = [0, [] if f is None else [norm(f)]] if (f is None or isinstance(f, str)) else [2]
+    except Exception:
+        f = [2]
+    return [st, public_context(e), call_impl_noerr(format_error, e, 'ERROR: '), opt(ln if isinstance(ln, int) else None), f]
+
 def impl_splitlines(arg):
     return norm(S(arg[1]).splitlines(bool(arg[0])))
 
@@ -443,6 +500,7 @@ FUNCS = {
     7: ('Scanner.required error + format_error', impl_scanner, ('T', 'S', 'S', 'X')),
     8: ('str.splitlines', impl_splitlines, ('T', 'B', 'S')),
     9: ("'{0}'.format(int)", impl_int, 'I'),
+    13: ('constructors of the error classes, observed through str/get_context/format_error/lineno/get_filename', impl_construct, 'X'),
     10: ('parse_string(.bib) in strict / non-strict / capture mode: renderings of every problem', impl_real_bib, 'S'),
     11: ('.bst parsed and run in strict / non-strict / capture mode: renderings of every problem', impl_real_bst, 'S'),
     12: ('.aux parsed in strict / non-strict / capture mode: renderings of every problem', impl_real_aux, 'S'),
@@ -470,6 +528,8 @@ def canon(fn, out):
             if out[0] == 0:
                 return out
             return [1, out[1], canon_context_value(out[2]), out[3][:1]]
+        if fn == 13:
+            return [out[0][:1], canon_context_value(out[1]), out[2][:1], out[3], out[4]]
     except Exception:
         pass
     return out
@@ -494,6 +554,19 @@ def wellformed(rec):
             and not (text[pos - 1:pos] == '\r' and text[pos:pos + 1] == '\n')
     if ctx[0] == 2:
         text, st, pos = S(ctx[1]), unopt(ctx[2]), ctx[3]
+        return st is not None and 0 <= st < pos <= len(text)
+    return True
+
+def construct_ok(arg):
+    """the premises of theorem format_error_total_by_class (scan_state_ok / bib_state_ok), in Python"""
+    tag = arg[0]
+    if tag == 3:
+        text, _, ln, pos = arg[2]
+        text = S(text)
+        return 0 <= pos < len(text) and text[pos] not in LB and 1 <= ln <= scanner_lineno(text, pos)
+    if tag == 4:
+        text, _, ln, pos = arg[2]
+        st = unopt(arg[3])
         return st is not None and 0 <= st < pos <= len(text)
     return True
 
@@ -692,6 +765,19 @@ def oracle(fn, arg, out):
         return oracle_modes(arg, out)
     if fn == 6:
         return oracle_cmdline(arg, out)
+    if fn == 13:
+        if arg[0] == 0 and arg[2] == [1]:
+            return 'format_error raised instead of returning text' if out[2][0] != 0 else None
+        if not construct_ok(arg):
+            return None
+        if out[0][0] != 0 or out[1][0] != 0 or out[2][0] != 0 or out[4][0] != 0:
+            return 'an error built by its constructor from a state its raise sites guarantee cannot be rendered'
+        text = S(out[2][1])
+        if S(out[0][1]) not in text:
+            return 'the rendering lacks str(error)'
+        if out[1][1] and out[1][1][0] and not subseq_in_order(S(out[1][1][0]).splitlines(), text, ''):
+            return 'the rendering lacks the source context'
+        return None
     if fn == 7:
         if out[0] == 0:
             return None
@@ -875,6 +961,33 @@ def gen(tier, rng):
     for i in range(N):
         text = rnd_text(rng, rng.randint(0, 3), ' \n\r\t\x0c\x85 　') + rnd_text(rng, rng.randint(0, 12), 'xy \n\r\x0b{}')
         yield ('rnd_scanner', 7, [text, rng.choice(['x', 'xy', '{', '']), rng.choice(FNAMES)])
+    # ---- constructors of the classes: exhaustive small scanner states + random
+    fns = [[], ['f.bib'], ['']]
+    for n in range(0, (3 if quick else 4) + 1):
+        for t in itertools.product('a\n\r\x0c', repeat=n):
+            text = ''.join(t)
+            for pos in range(0, n + 1):
+                for ln in (1, 2, 3):
+                    sc = [text, fns[(n + pos + ln) % 3], ln, pos]
+                    yield ('exh_construct', 13, [3, "'x'", sc])
+                    yield ('exh_construct', 13, [4, 'a name', sc, [[], [0], [1]][(pos + ln) % 3]])
+                    if pos == 0:
+                        yield ('exh_construct', 13, [2, sc])
+                        yield ('exh_construct', 13, [1, ETYPES[ln - 1], MSGS[n % len(MSGS)], sc])
+    for msg in MSGS:
+        for fn_ in FNAMES + [[1]]:
+            yield ('exh_construct', 13, [0, msg, fn_])
+        for f_ in fns:
+            for ln in LINENOS:
+                for line in ([], [''], ['\\bibdata{x}']):
+                    yield ('exh_construct', 13, [5, msg, [f_, ln, line]])
+    for i in range(N // 2):
+        text = rnd_text(rng, rng.randint(1, 25), 'ab  \n\n\r@{},=\x0c\x85')
+        pos = rng.randrange(len(text) + 1)
+        ln = rng.choice([scanner_lineno(text, pos), scanner_lineno(text, pos), 1, rng.randint(1, 4)])
+        sc = [text, rng.choice(fns), ln, pos]
+        yield ('rnd_construct', 13, [3, rng.choice(MSGS), sc])
+        yield ('rnd_construct', 13, [4, rng.choice(MSGS), sc, rng.choice([[], [0], [max(0, pos - 1)], [pos], [rng.randint(0, len(text))]])])
     # ---- real user input, corrupted, with several commands after the bad one
     NR = 400 if quick else 6000
     bib_toks = ['@', '{', '}', '"', ',', '=', '#', '(', ')', '\n', ' ', 'key1', '\r\n', '\x0c', 'undefinedmacro']
@@ -955,6 +1068,9 @@ def describe(fn, arg):
         return {'text': S(arg[0]), 'required literal': S(arg[1]), 'filename': arg[2]}
     if fn == 8:
         return {'keepends': arg[0], 'text': S(arg[1])}
+    if fn == 13:
+        return {'constructor': ['PybtexError(message, filename)', 'PybtexSyntaxError(message, parser)', 'PrematureEOF(parser)', 'TokenRequired(description, Scanner)', 'TokenRequired(description, LowLevelParser)', 'AuxDataError(message, context)'][arg[0]],
+                'args': [S(x) if isinstance(x, list) and x and all(isinstance(c, int) for c in x) else x for x in arg[1:]]}
     if fn in (10, 11, 12):
         return {'kind': {10: '.bib', 11: '.bst', 12: '.aux'}[fn], 'text': S(arg)}
     return {'value': arg}
@@ -987,6 +1103,8 @@ def _sig_F27(kind, fn, arg, detail):
         return False
     if fn == 1:
         return arg[0][2] == [1] and 'format_error raised' in str(detail)
+    if fn == 13:
+        return arg[0] == 0 and arg[2] == [1] and 'format_error raised' in str(detail)
     if fn == 11:
         return 'int.to.chr$' in S(arg) and 'cannot be rendered' in str(detail)
     if fn == 4:
